@@ -91,8 +91,26 @@ def merge_oracle(ctx, u, d, case):
     again = update_config(got, d)
     if again != got:
         raise PropertyViolation("C16/merge%s/not-idempotent" % tag, "merging the defaults again changes the result", case)
-    # the result must not share mutable structure with the inputs in a way that later edits leak: mutate result, inputs stay
+    # (the result may share sub-dictionaries with its inputs: update_config promises not to modify them itself, not deep copies)
     return cl, deep
+
+
+def scribble(x):
+    """overwrite every leaf and extend every container of a nested config in place"""
+    if isinstance(x, dict):
+        for k in list(x):
+            if isinstance(x[k], (dict, list)):
+                scribble(x[k])
+            else:
+                x[k] = "scribbled"
+        x["__extra__"] = 1
+    elif isinstance(x, list):
+        for i in range(len(x)):
+            if isinstance(x[i], (dict, list)):
+                scribble(x[i])
+            else:
+                x[i] = "scribbled"
+        x.append("__extra__")
 
 
 def merge_target(ctx):
@@ -155,8 +173,14 @@ def sub_apply_default(ctx):
         want = ref_merge(u0, default)
         if got != want:
             raise PropertyViolation("C16/apply-default/wrong-result", "effective configuration differs from user-over-defaults", u)
+        # what the caller does with the effective configuration must not change the packaged defaults for later calls
+        scribble(got)
+        again = ctx.observe(apply_default_config, copy.deepcopy(u0), _bucket="C16/apply-default/crash", _case=u0)
+        if again != want:
+            raise PropertyViolation("C16/apply-default/defaults-changed-by-caller",
+                                    "after editing an effective configuration, a later call no longer returns the packaged defaults", u0)
         cl, deep = overlap_class(u0, default)
-        ctx.case(u, deep >= 2, classes=["apply-default", "depth=%d" % deep])
+        ctx.case(u0, deep >= 2, classes=["apply-default", "depth=%d" % deep])
 
     ctx.run_given(body, user_cfg, max_examples=ctx.n(400, 20000))
 
